@@ -370,3 +370,17 @@ package postgres
 //@ loop-complete 1
 //@ site loop 1 call Flush assert w == worker
 //@ site loop 1 backedge assert itercalls("flush") == 1
+
+// The store worker loop (C12, C06): every collected batch is processed exactly once, every completion Process
+// returns is handed back exactly once (the inner loop is left only through its header), an empty batch is not
+// executed, and the loop ends only when the submission queue is closed.
+//@ func (*PostgresStoreWorker).Start
+//@ props C12 C06
+//@ abstract-calls .*
+//@ requires w != nil && w.config != nil
+//@ loop-complete 2
+//@ site call Collect assert c == w.sq && f == w.flush && n == w.config.BatchSize
+//@ site call Process assert sameslice(caller_sqes, sqes) && itercalls("Process") == 0
+//@ site loop 2 call EnqueueCQE assert arg0 == cqe
+//@ site loop 2 backedge assert itercalls("EnqueueCQE") == 1
+//@ site return assert !ok
